@@ -286,7 +286,7 @@ def rule_batchconst(ctx):
             continue
         d = defs["rand_nums"]
         v = d.value
-        n_ctor = const_int(v.args[0]) if isinstance(v, ast.Call) and (dotted(v.func) or "").endswith(".random") and len(v.args) == 1 else None
+        n_ctor = const_int(v.args[0]) if isinstance(v, ast.Call) and isinstance(v.func, ast.Attribute) and v.func.attr == "random" and len(v.args) == 1 else None
         consts["%s batch" % cls.name] = n_ctor
         okk = n_ctor is not None and n_ctor == consts.get("refill size") == consts.get("refill test")
         ctx.ob("batchconst", ctor, d.stmt, "%s: self.rand_nums = %s" % (cls.name, unparse(v)), "the initial batch has the same length N as the refill test and the refill", bool(okk),
